@@ -249,6 +249,9 @@ func (w *World) probes(r *RunResult) {
 				// written by a client that already had the answer
 				r.Probes["h1_upload_continued_after_handler_done"]++
 			}
+			if ex.LateWindows > 0 {
+				r.Probes["h1_cancellation_reached_server_first"]++
+			}
 			if ex.UnchunkedNoTrailers {
 				r.Probes["h1_unchunked_response_lost_trailers"]++
 			}
